@@ -128,7 +128,6 @@
     spec fn same_rest(&self, o: &Self) -> bool {
         &&& self.recv == o.recv &&& self.handle == o.handle
         &&& self.channels == o.channels &&& self.bus_listeners == o.bus_listeners
-        &&& self.function_calls.next == o.function_calls.next
     }
 
     // the registry tables proper
